@@ -147,7 +147,8 @@ def shuffleCodec (es : Nat) : B2B :=
   { enc := shuffleEnc es, dec := shuffleDec es, size := fun n => (n, true) }
 
 def chainEnc (cs : List B2B) (b : Bytes) : Option Bytes := cs.foldl (fun acc c => acc.bind c.enc) (some b)
-def chainDec (cs : List B2B) (b : Bytes) : Option Bytes := cs.foldr (fun c acc => fun x => (c.dec x).bind acc) some b
+/-- decoding applies the codecs in reverse order (`self.bytes_to_bytes.iter().rev()` in `CodecChain::decode`) -/
+def chainDec (cs : List B2B) (b : Bytes) : Option Bytes := cs.foldl (fun acc c => fun x => (c.dec x).bind acc) some b
 def chainSize (cs : List B2B) (n : Nat) : Nat × Bool :=
   cs.foldl (fun (acc : Nat × Bool) c => let (m, ex) := c.size acc.1; (m, acc.2 && ex)) (n, true)
 
